@@ -7,6 +7,9 @@ use std::collections::BTreeMap;
 pub mod c02;
 pub mod c03;
 pub mod c09;
+pub mod c10;
+pub mod c12;
+pub mod c13;
 pub mod util;
 
 #[derive(Clone, Copy, PartialEq, Debug)]
@@ -71,7 +74,7 @@ pub trait Scenario: Sync {
 }
 
 pub fn registry() -> Vec<&'static dyn Scenario> {
-    vec![&c02::C02, &c03::C03, &c09::C09]
+    vec![&c02::C02, &c03::C03, &c09::C09, &c10::C10, &c12::C12, &c13::C13]
 }
 pub fn lookup(id: &str) -> Option<&'static dyn Scenario> {
     registry().into_iter().find(|s| s.id().eq_ignore_ascii_case(id))
@@ -122,6 +125,8 @@ fn fault_from(v: &Value) -> Option<Fault> {
         "fderr" => Fault::FdErr { pid, nth, errno: v["errno"].as_i64().unwrap_or(libc::EMFILE as i64) as i32 },
         "polleintr" => Fault::PollEintr { pid, nth },
         "timejump" => Fault::TimeJump { step: v["step"].as_u64().unwrap_or(1), ns: v["ns"].as_u64().unwrap_or(0) },
+        "closestdin" => Fault::CloseStdin { step: v["step"].as_u64().unwrap_or(1) },
+        "execchild" => Fault::ExecChild { step: v["step"].as_u64().unwrap_or(1) },
         "corrupt" => Fault::Corrupt {
             pid,
             nth,
@@ -158,6 +163,18 @@ pub fn config_from(v: &Value) -> Config {
         c.max_steps = m;
     }
     c
+}
+/// Environment faults that are legal for any program: it closes its stdin at some point, and it
+/// spawns an unrelated long-lived child (fork+exec) at some point.
+pub fn gen_env_faults(r: &mut Rng, horizon: u64) -> Vec<Value> {
+    let mut v = vec![];
+    if r.chance(1, 4) {
+        v.push(json!({"k": "closestdin", "step": r.range(1, horizon)}));
+    }
+    if r.chance(1, 4) {
+        v.push(json!({"k": "execchild", "step": r.range(1, horizon)}));
+    }
+    v
 }
 /// Start the simulator from the "sim" object of a case.
 pub fn start_sim(params: &Value) {
